@@ -206,6 +206,7 @@ func fill(tmpl string, g *spec.Grammar, id int, v Variant) string {
 		eofCode = g.Tokens[a].Name
 	}
 	s = strings.ReplaceAll(s, "@EOFCODE@", eofCode)
+	s = strings.ReplaceAll(s, "@NNT@", fmt.Sprint(len(g.NTs)))
 	return s
 }
 
